@@ -296,7 +296,7 @@ class Hist:
     def iter_ops(self, prefix):
         r = self.r
         for _ in range(r.randint(1, 3)):
-            op = r.choice(["iter", "iterate", "irange", "miter", "miterate"] if not prefix else ["iter", "iterate", "irange", "irangeinc"])
+            op = r.choice(["iter", "iterate", "irange", "irangeinc", "miter", "miterate"] if not prefix else ["iter", "iterate", "irange", "irangeinc"])
             if op == "miter":
                 self.emit("miter %s %s %s" % (enc(self.bound()), enc(self.bound()), r.choice(["asc", "desc"])))
             elif op == "miterate":
@@ -518,6 +518,20 @@ class Hist:
             self.rollback()
         vs = sorted(self.versions)
         v = r.choice(vs[1:])
+        if r.random() < 0.5 and (v - 1) in self.versions:
+            # the other order: position the tree on the version that will be the latest, delete everything
+            # above it, and go on with this tree object (no reload afterwards)
+            self.emit("load %d" % (v - 1))
+            self.emit("delfrom %d" % v)
+            for u in list(self.versions):
+                if u >= v:
+                    del self.versions[u]
+            self.base = v - 1
+            self.working = dict(self.versions[self.base])
+            self.curlog = []
+            self.dirty = False
+            self.read_ops(2)
+            return
         self.emit("delfrom %d" % v)
         for u in list(self.versions):
             if u >= v:
